@@ -174,7 +174,7 @@ def warm_up(w, targets, how):
         w.args.clear()
 
 
-def run_world(n, edges, outcomes, seeded, mode, disabled=(), seed_kinds=None, late=None, archive=False, hashes=None, prios=None):
+def run_world(n, edges, outcomes, seeded, mode, disabled=(), seed_kinds=None, late=None, archive=False, hashes=None, prios=None, driver="run"):
     """Concrete run on whatever dr is imported (used natively for replay / sample validation)."""
     edges = dict(edges)
     if late:
@@ -196,7 +196,11 @@ def run_world(n, edges, outcomes, seeded, mode, disabled=(), seed_kinds=None, la
         dr.set_enabled(w.comps[i], False)
     comps = [w.comps[i] for i in targets]
     try:
-        if mode == "group":
+        if driver == "run_incremental":
+            list(dr.run_incremental(comps, broker=broker))
+        elif driver == "run_all":
+            dr.run_all(comps, broker=broker)
+        elif mode == "group":
             dr.run(broker=broker)          # no components named: the graph comes from the group registry
         else:
             dr.run(comps if mode == "all" else comps[0], broker=broker)
@@ -223,7 +227,7 @@ def _edges(en, n, kinds):
     return edges
 
 
-def make_o2(n, kinds, modes, order_mode="site", outcomes=None, max_seeded=None, late=False, archive=False, prio=False):
+def make_o2(n, kinds, modes, order_mode="site", outcomes=None, max_seeded=None, late=False, archive=False, prio=False, drivers=("run",)):
     outcomes = outcomes or OUTCOMES
 
     def o2(en):
@@ -245,6 +249,7 @@ def make_o2(n, kinds, modes, order_mode="site", outcomes=None, max_seeded=None, 
                 k = en.choice("seeded_which", n + 1)
                 seeded = [k] if k < n else []
             mode = modes[en.choice("mode", len(modes))]
+            driver = drivers[en.choice("driver", len(drivers))] if len(drivers) > 1 else drivers[0]
             chosen = {}
 
             def outcome_of(i):
@@ -286,11 +291,15 @@ def make_o2(n, kinds, modes, order_mode="site", outcomes=None, max_seeded=None, 
             en.note_sample(lambda mv: {"n": n, "edges": [[i, j, k] for (i, j), k in sorted(edges.items())],
                                        "outcomes": dict((str(i), o) for i, o in chosen.items()), "seeded": seeded,
                                        "seed_kinds": dict((str(i), k) for i, k in seed_kind.items()), "mode": mode, "disabled": [i for i in range(n) if not mv.bool(enabled[i])],
-                                       "late": late_edge, "archive": archive, "prios": dict((str(k_), v_) for k_, v_ in (prios or {}).items()), "log": [list(x) for x in w.log]})
+                                       "late": late_edge, "archive": archive, "prios": dict((str(k_), v_) for k_, v_ in (prios or {}).items()), "driver": driver, "log": [list(x) for x in w.log]})
             raised = None
             with oset.symbolic_order(mode=order_mode):
                 try:
-                    if mode == "group":
+                    if driver == "run_incremental":
+                        list(dr.run_incremental([w.comps[i] for i in targets], broker=broker))
+                    elif driver == "run_all":
+                        dr.run_all([w.comps[i] for i in targets], broker=broker)
+                    elif mode == "group":
                         dr.run(broker=broker)
                     else:
                         dr.run([w.comps[i] for i in targets] if mode == "all" else w.comps[n - 1], broker=broker)
@@ -299,7 +308,7 @@ def make_o2(n, kinds, modes, order_mode="site", outcomes=None, max_seeded=None, 
             case = lambda mv: {"kind": "run", "n": n, "edges": [[i, j, k] for (i, j), k in sorted(edges.items())],  # noqa
                                "outcomes": dict((str(i), o) for i, o in chosen.items()), "seeded": seeded, "mode": mode,
                                "seed_kinds": dict((str(i), k) for i, k in seed_kind.items()), "late": late_edge, "archive": archive,
-                               "prios": dict((str(k_), v_) for k_, v_ in (prios or {}).items()),
+                               "prios": dict((str(k_), v_) for k_, v_ in (prios or {}).items()), "driver": driver,
                                "disabled": [i for i in range(n) if not mv.bool(enabled[i])], "log": [list(x) for x in w.log]}
             if archive and isinstance(raised, KeyError):
                 # dr.run's pruning loop raises KeyError when a pre-seeded component directly depends on another pre-seeded one and
@@ -473,6 +482,12 @@ def obligations(tier):
                            bounds={"components": 4 if thorough else 3, "edge kinds": ["none", "required", "optional"], "priority": "one component with prio 1, -1 or 5", "outcomes": ["value", "skip"],
                                    "targets": "all named / last named / group registry", "set order": "every global total order"},
                            stubs=stubs, encoded=enc, budget_s=600 if thorough else 100, replay="run", check_sample=True))
+    obls.append(Obligation("O8-incremental-drivers", make_o2(4 if thorough else 3, ["none", "required", "optional", "group1"], ["all"], "global", ["value", "skip", "crash"], 0,
+                                                              drivers=("run_incremental", "run_all")), ["run-returns", "once-and-ordered"],
+                           desc="the same clauses when the graph is evaluated sub-graph by sub-graph (run_incremental, run_all) on one seed broker: a component that left no value is not attempted again by an overlapping sub-graph (enabled flags symbolic, optional-only links included)",
+                           bounds={"components": 4 if thorough else 3, "edge kinds": ["none", "required", "optional", "group1"], "outcomes": ["value", "skip", "crash"], "enabled": "symbolic boolean per component",
+                                   "drivers": ["run_incremental", "run_all"], "set order": "every global total order"},
+                           stubs=stubs, encoded=enc + [dr.get_subgraphs, dr.generate_incremental, dr.run_incremental, dr.run_all], budget_s=600 if thorough else 100, replay="run", check_sample=True))
     n2 = 4 if thorough else 3
     return obls + [
         Obligation("O3-broker-setitem", make_o3(), ["overwrite-refused"],
@@ -522,7 +537,7 @@ def _native_case(case, hashes=None):
         outcomes = dict((int(i), o) for i, o in case["outcomes"].items())
         w, b, bad = run_world(case["n"], edges, outcomes, case["seeded"], case["mode"], disabled=case.get("disabled", ()),
                               seed_kinds=case.get("seed_kinds"), late=case.get("late"), archive=case.get("archive", False), hashes=hashes,
-                              prios=dict((int(k_), v_) for k_, v_ in (case.get("prios") or {}).items()))
+                              prios=dict((int(k_), v_) for k_, v_ in (case.get("prios") or {}).items()), driver=case.get("driver", "run"))
         return w, bad
     raise ValueError(case)
 
@@ -584,7 +599,7 @@ def check_samples(payload):
     mism = []
     for s in payload["samples"]:
         ob = payload["obligation"].split("@")[0]
-        if ob.startswith("O2") or ob in ("O5-late-dependency", "O6-archive-prune", "O7-priorities"):
+        if ob.startswith("O2") or ob in ("O5-late-dependency", "O6-archive-prune", "O7-priorities", "O8-incremental-drivers"):
             s = dict(s)
             s["kind"] = "run"
             w, bad = _native_case(s)
